@@ -3,8 +3,6 @@ namespace detail {
 
 ////////////////////////////////////////////////////////////////////////////////
 
-#pragma pack(push, 1)
-
 struct TaskStatus final {
 	enum Result {
 		NONE,
@@ -20,8 +18,6 @@ struct TaskStatus final {
 
 	FFSM2_CONSTEXPR(14)	void clear()									noexcept;
 };
-
-#pragma pack(pop)
 
 //------------------------------------------------------------------------------
 
